@@ -434,7 +434,7 @@ func (fr *frame) enterLoop(h *ssa.BasicBlock, edges []edgeState, ord int) (*Stat
 			}
 			li.frameIn = stIn.clone()
 			for _, k := range names {
-				if !(mod == nil || mod[k]) || vc.ghost[k] || except[k] || k == "Hrng" || !strings.HasPrefix(vc.heapSort[k], "(Array Int") {
+				if !(mod == nil || mod[k]) || vc.ghost[k] || except[k] || k == "Hrng" || vc.isLibState(k) || !strings.HasPrefix(vc.heapSort[k], "(Array Int") {
 					continue
 				}
 				li.frameHeaps = append(li.frameHeaps, k)
